@@ -84,6 +84,13 @@ def run(ctx):
                             dest = os.path.join(ddir, f"{n}-{len(reqs)}") if n in retr.CHECKED_EXTRACT else None
                             reqs.append(retr.request(n, cache, key, sri, dest, bs))
                             meta.append((n, dest, bs, False))
+                        if n in ("copy", "copy_hash") and (cls == "control-no-damage" or pos % 5 == 0):
+                            # the destination already exists and is longer than the entry
+                            dest = os.path.join(ddir, f"{n}-over-existing")
+                            with open(dest, "wb") as f:
+                                f.write(b"STALE DESTINATION CONTENT " * (size // 20 + 3))
+                            reqs.append(retr.request(n, cache, key, sri, dest, None))
+                            meta.append((n + "-onto-longer-file", dest, None, False))
                     resps = ctx.batch(mode, reqs)
                     # reflink under emulated FICLONE
                     variant, m = drv.MODES[mode]
